@@ -206,10 +206,12 @@ def judge(chk: Check, traces: list[dict], label: str, via: str) -> None:
             loc["pos"] = f["pos"]
             loc["via"] = via
             if "fresh" in t:
-                loc["hist"] = True
+                loc["hist"] = t.get("_hist", "classes")  # which kind of history preceded this decode
             p = t["cases"][f["cid"] - 1]["p"]
             o = next(o for o in t["obs"] if o["cid"] == f["cid"] and o["pos"] == f["pos"])
-            chk.fail(f["clause"], loc, {"u": u, "payload": p, "pos": f["pos"], "via": via, "flavour": t.get("_flavour", "plain"), "hist": "fresh" in t, "typed": t.get("_typed", False)}, f"observed {json.dumps({k: o[k] for k in ('out', 'chosen', 'ckind', 'ekind', 'reenc')})[:400]}")
+            # observed on the type object itself: does the union at this position still list its members in the document's order?
+            loc["type_order"] = o.get("torder", "declared")
+            chk.fail(f["clause"], loc, {"u": u, "payload": p, "pos": f["pos"], "via": via, "flavour": t.get("_flavour", "plain"), "hist": t.get("_hist", "classes") if "fresh" in t else "", "typed": t.get("_typed", False)}, f"observed {json.dumps({k: o[k] for k in ('out', 'chosen', 'ckind', 'ekind', 'reenc')})[:400]}")
         if v["drift"] and not t.get("_nodrift"):
             ndrift += len(v["drift"])
             if chk.cov.get("drift_reported", 0) < 3:
@@ -227,7 +229,7 @@ def judge(chk: Check, traces: list[dict], label: str, via: str) -> None:
     chk.sample({"family": label, "via": via, "union": t["u"], "payload": t["cases"][0]["p"], "observed": t["obs"][0]}, cap=8)
 
 
-def replay_direct(chk: Check, groups: list[tuple[str, list[dict], int, bool]], label: str = "direct") -> None:
+def replay_direct(chk: Check, groups: list[tuple[str, list[dict], int, Any]], label: str = "direct") -> None:
     """groups: (family label, scenarios, all_positions_upto, history?) - ONE worker round and ONE monitor batch for all
     of them (a JVM start and 16 interpreter starts per family are a noticeable part of the quick tier's budget).
     history: HistoryIndependent on the real converter - another union with an equal (property, value -> class NAME)
@@ -236,8 +238,10 @@ def replay_direct(chk: Check, groups: list[tuple[str, list[dict], int, bool]], l
     for fam, scen, upto, hist in groups:
         js = direct_jobs(chk, scen, fam, upto)
         for j, d in zip(js, scen):
-            if hist:
-                j["history"] = {"vars": hist_vars(d["u"])}
+            if hist == "classes":
+                j["history"] = {"kind": "classes", "vars": hist_vars(d["u"])}
+            elif hist:
+                j["history"] = {"kind": hist}
             jobs.append(j)
             scen_of.append(d)
     if not jobs:
@@ -248,6 +252,8 @@ def replay_direct(chk: Check, groups: list[tuple[str, list[dict], int, bool]], l
         t = {"id": j["id"], "u": d["u"], "cases": [{"cid": c["cid"], "p": c["payload"]} for c in j["cases"]], "obs": r["res"]}
         if "history" in j:
             t["fresh"] = r["fresh"]
+            t["_hist"] = j["history"]["kind"]
+            t["_nodrift"] = t["_hist"] == "perm"  # wrapper positions follow the OTHER union's order (known finding), see notes
         traces.append(t)
     judge(chk, traces, label, "direct")
 
@@ -277,7 +283,7 @@ def variant_schema(v: dict, i: int, names: list[str]) -> dict:
     raise ValueError(k)
 
 
-def union_doc(u: dict, how: str, names: list[str] = NAMES, kind_enum: bool = False, typed: bool = False) -> dict:
+def union_doc(u: dict, how: str, names: list[str] = NAMES, kind_enum: bool = False, typed: bool = False, pair: bool = False) -> dict:
     """The one translation of an abstract union (UnionCodec.tla vocabulary) to an OpenAPI document: the union is the
     schema Pet (declared with `type: object` when typed), reached through every position of w_unionobs.POSITIONS."""
     disc = u["disc"]
@@ -329,6 +335,20 @@ def union_doc(u: dict, how: str, names: list[str] = NAMES, kind_enum: bool = Fal
     schemas["Hnmap"] = {"type": "object", "properties": {"m": {"$ref": "#/components/schemas/PetMap"}}, "required": ["m"]}
     schemas["Hrows"] = {"type": "object", "properties": {"rows": {"type": "array", "items": dict(arr)}}, "required": ["rows"]}
     schemas["Hopt"] = {"type": "object", "properties": {"u": P, "items": dict(arr)}}
+    if pair:
+        # a SECOND union over the same variant schemas in reversed order (never discriminated), used the same ways
+        pet2: dict[str, Any] = {how: [variant_schema(v, i, names) for i, v in reversed(list(enumerate(u["vars"])))]}
+        if u["nullable"]:
+            pet2["nullable"] = True
+        schemas["PetB"] = pet2
+        P2 = {"$ref": "#/components/schemas/PetB"}
+        arr2 = {"type": "array", "items": P2}
+        schemas["PetBList"] = dict(arr2)
+        schemas["Bfield"] = {"type": "object", "properties": {"u": P2}, "required": ["u"]}
+        schemas["Blist"] = {"type": "object", "properties": {"items": dict(arr2)}, "required": ["items"]}
+        schemas["Bnlist"] = {"type": "object", "properties": {"items": {"$ref": "#/components/schemas/PetBList"}}, "required": ["items"]}
+        schemas["Brows"] = {"type": "object", "properties": {"rows": {"type": "array", "items": dict(arr2)}}, "required": ["rows"]}
+        schemas["Bopt"] = {"type": "object", "properties": {"u": P2, "items": dict(arr2)}}
 
     def op(oid: str, name: str) -> dict:
         return {"get": {"operationId": oid, "tags": ["pets"], "summary": oid, "responses": {"200": {"description": "ok", "content": {"application/json": {"schema": {"$ref": f"#/components/schemas/{name}"}}}}}}}
@@ -355,6 +375,9 @@ def pick_generated(chk: Check, fams: dict[str, list[dict]], target: int) -> list
                 out += [("digit", d) for d in ranked[:8]]
                 # two clients sharing one core package: complete mapping, decoded after the other client's union
                 out += [("hist", d) for d in [x for x in ranked if x["u"]["disc"]["mode"] == "complete"][: max(6, target // 30)]]
+            # one document with TWO unions over the same variant schemas in opposite orders, the other one decoded first
+            two = [x for x in ranked if len(x["u"]["vars"]) == 2 and x["u"]["disc"]["mode"] in ("none", "complete") and not any(v["k"] in ("map", "anymap") for v in x["u"]["vars"])]
+            out += [("pair", d) for d in two[: max(10, target // 20)]]
         if fam == "extra":
             multi = rank([d for d in scen if d["u"]["disc"]["mode"] == "multi"])
             nul = rank([d for d in scen if d["u"]["disc"]["mode"] == "none" and not is_ann(d["u"])])
@@ -374,6 +397,8 @@ def gen_shape(chk: Check, flavour: str, u: dict) -> tuple[bool, list[str]]:
     typed = h % 4 == 0
     if flavour == "hist":
         return typed, list(BASE_POSITIONS)
+    if flavour == "pair":  # (map positions need the hooks the emitted map wrappers register on the first converter module)
+        return typed, list(BASE_POSITIONS) + ["nlist", "rows", "opt", "olist"]
     start = (h // 4) % len(EXTRA_POSITIONS)
     return typed, list(BASE_POSITIONS) + [EXTRA_POSITIONS[(start + k) % len(EXTRA_POSITIONS)] for k in range(4)]
 
@@ -391,7 +416,7 @@ def replay_generated(chk: Check, picked: list[tuple[str, dict]], label: str, for
         if force:
             typed, positions = bool(force.get("typed")), [force["pos"]]
         shapes.append((typed, positions))
-        doc = union_doc(u, how, DIGIT_NAMES if flavour == "digit" else NAMES, kind_enum=(flavour == "multi-enum"), typed=typed)
+        doc = union_doc(u, how, DIGIT_NAMES if flavour == "digit" else NAMES, kind_enum=(flavour == "multi-enum"), typed=typed, pair=(flavour == "pair"))
         job = {"id": f"{label}#{j}", "root": str(root), "spec": doc, "pkg": f"u{j}.client", "force": True, "nopp": True}
         if flavour == "hist":
             # v1 and v2 of one API as two top-level client packages sharing one core package
@@ -416,6 +441,10 @@ def replay_generated(chk: Check, picked: list[tuple[str, dict]], label: str, for
             prop = d["u"]["disc"]["prop"]
             oj["core"] = j["core"]
             oj["history"] = {"pkg": j["pkg"][:-1] + "1", "alias": "Pet", "payloads": [{"t": "o", "v": [{"k": prop, "v": {"t": "s", "v": tag}}]} for tag, _ in d["u"]["disc"]["mapping"]]}
+        kinds = {"str": "str", "int": "int", "float": "float", "bool": "bool", "list": "list", "map": "dict", "anymap": "dict"}
+        oj["order"] = [nm[i] if v["k"] == "obj" else kinds[v["k"]] for i, v in enumerate(d["u"]["vars"])]
+        if flavour == "pair":
+            oj["history"] = {"kind": "perm"}
         ojobs.append(oj)
     chk.require(len(ojobs) > 0, "no union document could be generated")
     ores = {r["id"]: r for r in core.parallel_py(chk.scratch, "harness.w_obs", ojobs, env={"VERIF_OBS_EXTRA": "harness.w_unionobs"})}
@@ -434,10 +463,11 @@ def replay_generated(chk: Check, picked: list[tuple[str, dict]], label: str, for
         # the generator renders a typed inline map as dict[str, Any] (the fallback type), so the emitted alias is not the
         # union ImplChoose is evaluated on: the property-level judgement is unaffected, the model comparison is skipped
         # (likewise for the flavours whose known generator defects make the emitted code differ from the model)
-        nodrift = any(v["k"] == "map" for v in d["u"]["vars"]) or flavour in ("digit", "multi-plain")
+        nodrift = any(v["k"] == "map" for v in d["u"]["vars"]) or flavour in ("digit", "multi-plain", "pair")
         t = {"id": j["id"], "u": d["u"], "cases": [{"cid": i + 1, "p": c["p"]} for i, c in enumerate(d["cases"])], "obs": ob["res"], "_alias": ob["alias_repr"], "_nodrift": nodrift, "_flavour": flavour, "_typed": typed}
-        if flavour == "hist":
+        if flavour in ("hist", "pair"):
             t["fresh"] = ob["fresh"]
+            t["_hist"] = "perm" if flavour == "pair" else "classes"
         traces.append(t)
         chk.cov[f"generated_{flavour}"] = chk.cov.get(f"generated_{flavour}", 0) + 1
     chk.cov["generated_unions"] = chk.cov.get("generated_unions", 0) + len(traces)
@@ -507,7 +537,12 @@ def run(chk: Check) -> None:
             scen = [d for d in scen if not is_ann(d["u"])]
         groups.append((fam, scen, allpos, False))
     hist = [d for d in fams["disc"] if d["u"]["disc"]["mode"] == "complete" and (thorough or len(d["u"]["vars"]) == 2)]
-    groups.append(("history", hist, 2, True))
+    groups.append(("history", hist, 2, "classes"))
+    # one document may hold SEVERAL unions over the same variant set in different orders, and decoding is a history
+    # inside one process: the reversed undiscriminated union over the same classes is decoded first, then this one
+    perm = [d for fam in ("obj", "mixed", "disc") for d in fams[fam]
+            if len(d["u"]["vars"]) == 2 and d["u"]["disc"]["mode"] in ("none", "complete") and (thorough or stable_hash("perm" + ukey(d["u"]), chk.seed) % 2 == 0)]
+    groups.append(("history-perm", perm, 2, "perm"))
     replay_direct(chk, groups)
     replay_generated(chk, pick_generated(chk, fams, 300 if thorough else 200), "generated")
     chk.cov["exhaustive"] = True
@@ -523,12 +558,14 @@ def replay(chk: Check, path: str) -> None:
     else:
         jobs = [{"id": "replay", "vars": u["vars"], "nullable": u["nullable"], "disc": u["disc"], "cases": [{"cid": 1, "payload": p}], "positions": [sc.get("pos", "top")]}]
         if sc.get("hist"):
-            jobs[0]["history"] = {"vars": hist_vars(u)}
+            kind = sc["hist"] if isinstance(sc["hist"], str) else "classes"
+            jobs[0]["history"] = {"kind": kind, "vars": hist_vars(u)}
         res = core.parallel_py(chk.scratch, "harness.w_union", jobs)
         print("REPLAY-OBSERVED", json.dumps(res[0]["res"]))
         t = {"id": "replay", "u": u, "cases": [{"cid": 1, "p": p}], "obs": res[0]["res"]}
         if sc.get("hist"):
             t["fresh"] = res[0]["fresh"]
+            t["_hist"] = jobs[0]["history"]["kind"]
         judge(chk, [t], "replay", "direct")
     for f in chk.fails:
         print("REPLAY-FAIL", f["clause"], json.dumps(f["locus"]), f["detail"][:300])
